@@ -28,7 +28,10 @@ pub enum Dom {
 fn long_name(r: &mut Rng) -> String {
     // > 127 bytes so that the string table's length prefix needs two bytes
     let mut s = String::from("long.");
-    for _ in 0..(130 + r.below(40)) {
+    // lengths around the LEB128 prefix boundaries (total length = 5 + n): exact multiples of 128 included
+    let n = *r.pick(&[122usize, 123, 124, 125, 130, 150, 170, 250, 251, 252, 379, 1019, 130, 140, 160]);
+    let n = if r.chance(1, 2) { n } else { 130 + r.below(40) };
+    for _ in 0..n {
         s.push((b'a' + r.below(26) as u8) as char);
     }
     s
@@ -182,7 +185,8 @@ pub fn gen_mapping(r: &mut Rng, o: &GenOpts) -> String {
                 } else {
                     (pick_name(r, OMETH, o.dom), r.pick(ARGS).to_string())
                 };
-                s.push_str(&format!("    {}{} {}{}({}){} -> {}{}", lines, r.pick(TYPES), oc, orig, args, ol, obf, nl));
+                let tail = if o.dom == Dom::Wild && r.chance(1, 12) { *r.pick(&["\u{b}", "\u{c}", "\u{b}\u{c}", " "]) } else { "" };
+                s.push_str(&format!("    {}{} {}{}({}){} -> {}{}{}", lines, r.pick(TYPES), oc, orig, args, ol, obf, tail, nl));
                 i += 1;
                 let _ = g;
             }
@@ -401,8 +405,8 @@ pub fn mutate(r: &mut Rng, s: &str) -> Vec<u8> {
             0 => {
                 b.remove(pos);
             }
-            1 => b.insert(pos, *r.pick(b" :->().#\n\r\t$0129")),
-            2 => b[pos] = *r.pick(b" :->().#\n\r\t$0129\xb2\xff\xc3"),
+            1 => b.insert(pos, *r.pick(b" :->().#\n\r\t$0129\x0b\x0c\x00\x1f\x7f")),
+            2 => b[pos] = *r.pick(b" :->().#\n\r\t$0129\xb2\xff\xc3\x0b\x0c\x00"),
             3 => {
                 let tok: &[u8] = *r.pick(&[&b" -> "[..], b"    ", b":", b"\n", b"\r\n", b"# {\"id\":\"sourceFile\",\"fileName\":\"", b"\"}", b"18446744073709551616", b"4294967296", b"()"]);
                 for (k, x) in tok.iter().enumerate() {
@@ -441,6 +445,8 @@ pub fn soup(r: &mut Rng) -> Vec<u8> {
         b"void", b"int x", b".", b"$", b"# {\"id\":\"sourceFile\",\"fileName\":\"", b"\"}", b"\"", b"\xb2", b"\xc2\xb2",
         b"\xff", b"\xc3\xa9", b"18446744073709551615", b"18446744073709551616", b"99999999999999999999999999", b"+5",
         b"\xe2\x80\xa8", b"\xc2\x85", b"\t", b"sourceFile", b"compiler", b"min_api", b"x.y.z", b"<init>", b",",
+        b"\x0b\n", b"\x0c\r", b"\x0b", b"\x0c", b"\x00", b"abcdefgh", b"18446744073709551617", b"18446744073709551619",
+        b"0018446744073709551616", b"    1:2:void f():", b" -> m",
     ];
     let n = r.below(14);
     let mut b = Vec::new();
@@ -451,7 +457,7 @@ pub fn soup(r: &mut Rng) -> Vec<u8> {
 }
 pub fn raw_bytes(r: &mut Rng) -> Vec<u8> {
     let n = r.below(40);
-    (0..n).map(|_| if r.chance(1, 3) { *r.pick(b" ->:#()\n\r0123") } else { r.below(256) as u8 }).collect()
+    (0..n).map(|_| if r.chance(1, 3) { *r.pick(b" ->:#()\n\r0123\x0b\x0c") } else { r.below(256) as u8 }).collect()
 }
 
 /// corruptions of a valid cache file (C12): field edits, record swaps/duplicates, bit flips,
@@ -522,6 +528,37 @@ pub fn corrupt(r: &mut Rng, valid: &[u8]) -> Vec<u8> {
             6 => {
                 let pos = r.below(b.len());
                 b[pos] ^= 1 << r.below(8);
+            }
+            7 if r.chance(1, 2) && nc > 0 => {
+                // overwrite the length prefix of a REFERENCED string with a hostile LEB128 number
+                let (rec0, size, n, fields): (usize, usize, usize, &[usize]) = match r.below(3) {
+                    0 => (cls0, 28, nc, &[0, 1, 2]),
+                    1 if nm > 0 => (mem0, 36, nm, &[0, 3, 4, 5, 8]),
+                    2 if np > 0 => (par0, 36, np, &[0, 5, 8]),
+                    _ => (cls0, 28, nc, &[0, 1]),
+                };
+                let i = r.below(n);
+                let f = *r.pick(fields);
+                let at = rec0 + i * size + 4 * f;
+                if at + 4 <= b.len() {
+                    let off = rd(&b, at) as usize;
+                    let prefix: &[u8] = *r.pick(&[
+                        &[0xff, 0xff, 0xff, 0xff, 0xff, 0xff, 0xff, 0xff, 0xff, 0x01][..],
+                        &[0xff, 0xff, 0xff, 0xff, 0xff, 0xff, 0xff, 0xff, 0x7f][..],
+                        &[0xff, 0xff, 0xff, 0xff, 0x0f][..],
+                        &[0x80, 0x80, 0x80, 0x80, 0x80, 0x80, 0x80, 0x80, 0x80, 0x02][..],
+                        &[0x80][..],
+                        &[0x80, 0x00][..],
+                        &[0xff, 0x7f][..],
+                    ]);
+                    if off != u32::MAX as usize && str0 + off < b.len() {
+                        for (k, x) in prefix.iter().enumerate() {
+                            if str0 + off + k < b.len() {
+                                b[str0 + off + k] = *x;
+                            }
+                        }
+                    }
+                }
             }
             7 => {
                 // damage the string section: length prefixes and UTF-8
@@ -604,7 +641,7 @@ pub fn emit_cache_queries(out: &mut Vec<String>, mapping: &[u8], r: &mut Rng, pe
 /// large structure: class counts and method-group sizes around powers of two (binary search and
 /// range expansion edge cases), long strings (multi-byte length prefixes), 4-byte UTF-8 names
 pub fn gen_big_mapping(r: &mut Rng) -> String {
-    let ncls = *r.pick(&[63usize, 64, 65, 127, 128, 129, 255, 256, 257, 511, 512, 513, 1000, 1024, 1025]);
+    let ncls = *r.pick(&[21usize, 24, 33, 63, 64, 65, 127, 128, 129, 255, 256, 257, 511, 512, 513, 1000, 1024, 1025]);
     let nl = *r.pick(&["\n", "\r\n"]);
     let mut names: Vec<String> = (0..ncls)
         .map(|i| match r.below(6) {
@@ -622,23 +659,57 @@ pub fn gen_big_mapping(r: &mut Rng) -> String {
         names.swap(i, j);
     }
     if r.chance(1, 2) {
-        // one very long name: three-byte LEB128 length prefix
+        // one very long name: three-byte LEB128 length prefix, exact boundary lengths included
         let k = r.below(names.len());
-        names[k] = format!("long.{}", "n".repeat(16384 + r.below(50)));
+        let len = *r.pick(&[16379usize, 16380, 16384, 16400, 16507]) - 5 + 5 * r.below(2);
+        names[k] = format!("long.{}", "n".repeat(len));
     }
-    let special = r.below(ncls);
-    let group = *r.pick(&[1usize, 2, 3, 4, 7, 8, 9, 15, 16, 17, 31, 32, 33, 63, 64, 65, 100, 255, 256, 257]);
+    // duplicated class names (the last block wins): a few names occur again later in the file
+    let ndup = r.below(5);
+    for _ in 0..ndup {
+        let k = r.below(names.len());
+        let n = names[k].clone();
+        let pos = r.below(names.len() + 1);
+        names.insert(pos, n);
+    }
+    // special classes: (a) three classes sharing one big method set (same obf/args/orig triples),
+    // (b) one class where ONE obfuscated name has N entries, N around the sizes where search code changes strategy
+    let specials: Vec<usize> = (0..3).map(|_| r.below(names.len())).collect();
+    let group = *r.pick(&[17usize, 20, 23, 33, 40, 64, 65, 100, 255, 256, 257]);
+    let single = r.below(names.len());
+    let single_n = *r.pick(&[33usize, 34, 35, 40, 62, 63, 64, 65, 66, 90, 127, 128, 129, 130, 131, 219, 255, 256, 257, 258, 259, 260, 476, 513, 514, 515, 516, 517]);
+    let single_pre = *r.pick(&[0usize, 0, 3, 40]);
     let mut s = String::new();
     for (i, n) in names.iter().enumerate() {
         s.push_str(&format!("com.example.Orig{} -> {}:{}", i, n, nl));
         if r.chance(1, 9) {
             s.push_str(&format!("# {{\"id\":\"sourceFile\",\"fileName\":\"F{}.kt\"}}{}", i, nl));
         }
-        let nm = if i == special { group } else { r.below(3) };
+        if i == single {
+            for k in 0..single_pre {
+                s.push_str(&format!("    void pre{}() -> a{}{}", k, k, nl));
+            }
+            for k in 0..single_n {
+                let a = 1 + 2 * k;
+                match k % 3 {
+                    0 => s.push_str(&format!("    {}:{}:void f{}():{}:{} -> b{}", a, a + 1, k, 100 + k, 101 + k, nl)),
+                    1 => s.push_str(&format!("    {}:{}:int com.other.K.inl{}(int):{} -> b{}", a, a + 1, k, 7 + k, nl)),
+                    _ => s.push_str(&format!("    {}:{}:void g{}(int) -> b{}", a, a, k % 7, nl)),
+                }
+            }
+            for k in 0..(if single_pre == 40 { 40 } else { single_pre }) {
+                s.push_str(&format!("    void post{}() -> c{}{}", k, k, nl));
+            }
+            continue;
+        }
+        let is_special = specials.contains(&i);
+        let nm = if is_special { group } else { r.below(3) };
         for k in 0..nm {
-            let obf = if i == special { format!("m{}", k % 5) } else { format!("m{}", k) };
+            // interleaved obfuscated names, deterministic shape so that the special classes share triples
+            let obf = if is_special { format!("m{}", (k * 7) % 5) } else { format!("m{}", k) };
             let a = 1 + (k * 3) % 60;
-            match r.below(4) {
+            let kind = if is_special { k % 4 } else { r.below(4) };
+            match kind {
                 0 => s.push_str(&format!("    void orig{}(int) -> {}{}", k, obf, nl)),
                 1 => s.push_str(&format!("    {}:{}:void orig{}():{}:{} -> {}{}", a, a + 2, k, 100 + k, 102 + k, obf, nl)),
                 2 => s.push_str(&format!("    {}:{}:int com.other.K{}.inl{}(int):{} -> {}{}", a, a + 2, k % 3, k, 7 + k, obf, nl)),
@@ -664,6 +735,34 @@ pub fn emit_big_queries(out: &mut Vec<String>, mapping: &[u8], r: &mut Rng, q: Q
             picks.push(r.pick(&sorted).clone());
         }
     }
+    // the classes with the largest member sets are always queried (all their methods)
+    let mut counts: std::collections::BTreeMap<&String, usize> = std::collections::BTreeMap::new();
+    for (c, _) in &u.methods {
+        *counts.entry(c).or_default() += 1;
+    }
+    let mut by_count: Vec<(&String, usize)> = counts.into_iter().collect();
+    by_count.sort_by(|a, b| b.1.cmp(&a.1));
+    let heavy: Vec<String> = by_count.iter().take(5).map(|(c, _)| (*c).clone()).collect();
+    for c in &heavy {
+        picks.push(c.clone());
+    }
+    // names that occur more than once in the file (duplicate class lines)
+    {
+        let text = String::from_utf8_lossy(mapping);
+        let mut seen: std::collections::BTreeMap<String, usize> = std::collections::BTreeMap::new();
+        for l in text.lines() {
+            if !l.starts_with(' ') && !l.starts_with('#') {
+                if let Some((_, b)) = l.split_once(" -> ") {
+                    *seen.entry(b.trim_end_matches(|c| c == ':' || c == '\r').to_string()).or_default() += 1;
+                }
+            }
+        }
+        for (n, k) in seen {
+            if k > 1 {
+                picks.push(n);
+            }
+        }
+    }
     let n0 = picks.len();
     for i in 0..n0.min(6) {
         for n in neighbours(&picks[i].clone()).into_iter().take(2) {
@@ -673,18 +772,27 @@ pub fn emit_big_queries(out: &mut Vec<String>, mapping: &[u8], r: &mut Rng, q: Q
     picks.push("zzzz.unknown".into());
     picks.sort();
     picks.dedup();
-    let lines = line_set(&u, r, false);
+    // a sample of the line set: big files have hundreds of range boundaries
+    let all_lines = line_set(&u, r, false);
+    let mut lines: Vec<usize> = Vec::new();
+    for _ in 0..30 {
+        lines.push(*r.pick(&all_lines));
+    }
+    lines.extend_from_slice(&[0, 1, 2, 3, 66, usize::MAX]);
+    lines.sort();
+    lines.dedup();
     for c in &picks {
         if q.class {
             out.push(format!("K {}", hex(c.as_bytes())));
         }
         let methods: Vec<&(String, String)> = u.methods.iter().filter(|(cc, _)| cc == c).collect();
-        for (_, m) in methods.iter().take(8) {
+        let cap = if heavy.contains(c) { 12 } else { 4 };
+        for (_, m) in methods.iter().take(cap) {
             if q.method {
                 out.push(format!("T {} {}", hex(c.as_bytes()), hex(m.as_bytes())));
             }
             if q.lines {
-                for l in lines.iter().step_by(3) {
+                for l in lines.iter().step_by(if heavy.contains(c) { 1 } else { 3 }) {
                     out.push(format!("L {} {} {} ~", hex(c.as_bytes()), hex(m.as_bytes()), l));
                 }
             }
